@@ -170,12 +170,15 @@ Definition unicode_escape_decode (bs : bytes) : res str := ued UN bs.
 (* ------------------------------------------------------------------ *)
 (* Tokenizer._handleToken *)
 Definition decode_quoted (body : str) : res str :=
+  let non_ascii := negb (forallb is_ascii body) in   (* nonAscii = any(lambda c: ord(c) > 127, token) *)
   do b <- utf8_encode body;                 (* codecs.getencoder('utf8'): UnicodeEncodeError on surrogates *)
   do u <- unicode_escape_decode b;          (* UnicodeDecodeError *)
-  match latin1_encode u with                (* try: token.encode('iso-8859-1').decode()  except: pass *)
-  | None => Ok u
-  | Some b' => match utf8_decode b' with Ok s => Ok s | Raise _ => Ok u end
-  end.
+  if non_ascii then
+    match latin1_encode u with              (* try: token.encode('iso-8859-1').decode()  except: pass *)
+    | None => Ok u
+    | Some b' => match utf8_decode b' with Ok s => Ok s | Raise _ => Ok u end
+    end
+  else Ok u.
 
 Definition handle_token (t : tk) (tok : str) : res str :=
   match tok with
@@ -311,8 +314,9 @@ Definition mq_esc (s : str) : str :=
   flat_map (fun c => if c =? BSL then [BSL; BSL] else if c =? DQ then [BSL; DQ] else [c]) s.
 Definition minimal_quote (s : str) : str := DQ :: mq_esc s ++ [DQ].
 
-(* domain of the dqrepr round trip: the argument is pure ASCII, or has a code
-   point >= 256, or its code points read as bytes are not valid UTF-8 *)
+(* the class of finding C13.F15 before its repair (complement): the argument is pure ASCII, or has a code
+   point >= 256, or its code points read as bytes are not valid UTF-8.  Since the repair the dqrepr
+   round trip needs no domain; kept for the harness corpus classification only *)
 Definition dq_dom (a : str) : bool :=
   forallb is_ascii a || negb (forallb is_byte a)
   || match utf8_decode a with Ok _ => false | Raise _ => true end.
